@@ -182,9 +182,13 @@ def stack_cmds(rng, h, n, tries=True, fail=False, big_align=True):
         al = rng.choice([1, 1, 2, 4, 8, 8, 16, 16] + ([32, 64] if big_align else []))
         if r < 0.40:
             cmds.append("an %d %d" % (sz, al))
-        elif r < 0.46:
+        elif r < 0.44:
             cmds.append("aa %d %d %d" % (rng.choice([1, 2, 3, 5]), max(1, sz // 4), al))
-        elif r < 0.54 and tries:
+        elif r < 0.50:
+            # at and around the end of the current / the next block
+            cmds.append("%s %d %d" % (rng.choice(["anc", "anc", "anr", "anr", "tnc"]), rng.choice([-9, -1, 0, 0, 1, 2, 7, 8, 15, 16, 17, 31, 33, 63]),
+                                      rng.choice([1, 2, 8, 16, 32, 64])))
+        elif r < 0.56 and tries:
             cmds.append("tn %d %d" % (sz, al))
         elif r < 0.66:
             cmds.append("mk")
@@ -251,9 +255,11 @@ def iter_cmds(rng, h, n, tries=True):
         al = rng.choice([1, 1, 2, 4, 8, 16, 32])
         if r < 0.45:
             cmds.append("an %d %d" % (sz, al))
-        elif r < 0.52:
+        elif r < 0.50:
             cmds.append("aa %d %d %d" % (rng.choice([1, 2, 3]), max(1, sz // 3), al))
-        elif r < 0.62 and tries:
+        elif r < 0.56:
+            cmds.append("%s %d %d" % (rng.choice(["anc", "tnc"]), rng.choice([-5, -1, 0, 0, 1, 3, 7, 8, 9, 15]), rng.choice([1, 2, 4, 8, 16])))
+        elif r < 0.64 and tries:
             cmds.append("tn %d %d" % (sz, al))
         elif r < 0.88:
             cmds.append("ni")
@@ -276,6 +282,8 @@ def static_cmds(rng, n):
         cmds.append(("an %d %d" % (sz, al)) if rng.random() < 0.8 else "aa %d %d %d" % (rng.randint(1, 5), sz, al))
         if rng.random() < 0.1:
             cmds.append("d %d" % rng.randint(0, 10))
+        if rng.random() < 0.12:
+            cmds.append("anc %d %d" % (rng.choice([-3, 0, 1, 5, 9, 17, 40]), rng.choice([1, 4, 8, 16, 64])))
     return cmds
 
 
